@@ -72,6 +72,8 @@ def handle : Handler := fun op args =>
         match Interp.locate o.N o.x o.st v with
         | .ok (j, _) => ans (locateGuard o.N o.x o.st v) (interpolateReads o.N j)
         | .error _ => ans (locateGuard o.N o.x o.st v)
+  | "c10.interp.hist" => withArgs (do let xs ← pRats; let vs ← pRats; pure (xs, vs)) args fun (xs, vs) =>
+      withObj xs fun o => ans (historyGuard o.N o.x o.st vs)
   | "c10.interp.integ" => withArgs (do let xs ← pRats; let a ← pRat; let b ← pRat; pure (xs, a, b)) args fun (xs, a, b) =>
       withObj xs fun o => ans (integrateGuard o.N o.x o.st a b)
   | "c10.interp.lmin" | "c10.interp.lmax" => withArgs (do let xs ← pRats; let a ← pRat; let b ← pRat; pure (xs, a, b)) args fun (xs, a, b) =>
